@@ -67,6 +67,14 @@ CHECKS = {
   text="Coq theorems over models of module discovery (parser.rs tree(): work list, visited set, file ids) and use_path (statement.rs), exact on the tie against the real tree() on generated file maps: each file is loaded once (visit_once); the import path to file mapping for relative/rooted files and folders (exports.sy), the root and std libraries is the documented one (use_path_*); a qualified access ns.x and a from-import resolve to the very variable of the named module (import_transparent_*), a name that is not imported is not visible (not_imported_invisible) and imports do not disturb other files' tables (imports_frame); the order dependence of from-importing a re-exported name is stated as a theorem (C12_reexport_order_dependent). Oracle on the real compiler + Lua interpreter model: single-file vs partitioned multi-file variants in every import style agree on accept/reject and trace.",
   note="Open known finding C12-from-import-of-reexport-depends-on-module-order. Trusted: Coq kernel; Resolve/Modules.v and Resolver.v as models (tie each run); gen_resolve.py (std library names and their imports); the in-memory file reader of the harness stands for the file system. No axioms.",
   technique="Coq theorems on models of module discovery, path mapping and namespace tables + differential tie + partition oracle on the real compiler", design="DESIGN.md §4 C12"),
+ "C18": dict(
+  text="Refinement theorems in Coq: every list/dict/set operation of an executable model of preamble.lua and of the std functions written in Sylt, and every sequence of operations (induction over the history), computes what plain lists, finite maps, finite sets, option and Z/Q compute, for any element/key type embedded in run-time values; tostring key injectivity proved for strings and ints, refuted for floats and tuples containing strings; library-made Maybe values proved == to source-written ones; math helpers proved against Z/Q. Every definition of preamble.lua and std/*.sy is regenerated (name, shape, text digest) on each run and proved equal to the reviewed list. The real preamble.lua (run by LuaCore) and compiled Sylt programs are compared with the extracted model and with plain Python containers.",
+  note="Trusted: Coq kernel; gen_preamble translator; DocRuntime.v review; Runtime.v as the model (validated differentially); LuaCore as the definition of Lua 5.3; extraction (ExtrOcamlBasic/ExtrOcamlString) + runtime_driver.ml; hist_gen.py generators and plain models; harness compile. Exact rationals, no NaN/inf/rounding/wrap-around; containers are values (no aliasing); callbacks pure; random/trig/sqrt/pow/split/args/conversions/for_each/dict.map/set.map outside. Open known finding: keys with equal printed forms collide. No axioms.",
+  technique="Coq refinement proofs (per operation + history induction) + regenerated preamble/std tables + differential tie against the real preamble under LuaCore + end-to-end plain-model oracle", design="DESIGN.md §4 C18"),
+ "C19": dict(
+  text="Theorems in Coq over the model of preamble.lua's metamethods under Lua 5.3 dispatch, for all values of all nested composite types (induction on the type): == decides structural equality on tuples, lists, blobs and enum values and is an equivalence, != is its complement; < <= > >= never fail on ordered types and describe one lexicographic strict total order (trichotomy, transitivity, <= iff < or ==, > and >= are the flips); + - * / (tuple by tuple and by number) and unary minus are element-wise with ints staying ints; + concatenates strings, also inside tuples. The operator templates of lua.rs and the preamble definitions are regenerated on each run and proved equal to the reviewed lists; the real preamble.lua under LuaCore and compiled programs are compared with the extracted model and with structural definitions in Python.",
+  note="Trusted: as C18. NaN (== not reflexive) and infinities are outside the rational number model; values are trees (function fields compare by identity); mixed-kind table comparisons other than tuple/list are outside the model (never admitted by the type checker). No axioms.",
+  technique="Coq proofs by induction on value types + regenerated operator/preamble tables + differential tie + end-to-end structural oracle", design="DESIGN.md §4 C19"),
 }
 
 NOT_YET = "not yet claimed in this revision (machinery under construction; see DESIGN.md §4 for the plan)"
